@@ -20,6 +20,7 @@ def parseRaw? (s : String) : Option Raw :=
       let a ← parseInt? a; let b ← parseInt? b; let st ← parseInt? st
       pure (Raw.range a b st)
   | ["frac"] => some .fractional
+  | ["floats", vs] => (parseRatList? vs).map rawOfFloats
   | ["unsup"] => some .unsupported
   | ["2d"] => some .twoDim
   | _ => none
